@@ -41,7 +41,11 @@ def program_for(sc):
             if prio:
                 lines.append("  priority %s" % prio)
             if li == len(levels) - 1:
-                lines.append("  match Ev(%s)" % args)
+                if f.get("or_group"):
+                    # the same wait spelt as one alternative of an or-group (head fork and merge): the matching score is the event match's
+                    lines.append("  match Ev(%s) or NeverComes()" % args)
+                else:
+                    lines.append("  match Ev(%s)" % args)
             else:
                 # the event is matched further down: every level adds one match (FlowFinished of the level below) to the chain
                 lines.append("  await c%di%d" % (k, li + 1))
@@ -83,7 +87,7 @@ class C05(InterpProp):
     rule = ("one scenario = 2-6 flows waiting for the same event with 1-4 parameters; each flow mentions a subset of the parameters (specificity), optionally a priority in {0.9, 0.5, 0.1}, sits in the parent loop, "
             "loop A, loop B or a NEW loop, starts a distinct or a shared action; some flows mention a wrong value (must stay untouched). It is executed once per forced tie-break pick (0..n-1, n = size of the largest group). "
             "evaluations = executions; non-trivial = competitions with >= 2 matching flows in one loop and different actions; distinct = distinct (specificity/priority/loop/action vector, pick)")
-    expected_probes = ["raw_event_competes_with_action_start", "two_live_instances_of_a_new_loop_flow", "chains_of_different_length", "tie_set_of_2plus", "every_tie_member_won", "shared_action_co_winners", "independent_loops", "non_matching_flow_untouched", "priority_decided"]
+    expected_probes = ["competitor_waits_in_or_group", "raw_event_competes_with_action_start", "two_live_instances_of_a_new_loop_flow", "chains_of_different_length", "tie_set_of_2plus", "every_tie_member_won", "shared_action_co_winners", "independent_loops", "non_matching_flow_untouched", "priority_decided"]
     exhaustive_parts = ["every outcome of the tie-break (pick 0..n-1) for every generated competition"]
     quick_runs = 4000
     thorough_runs = 400000
@@ -107,7 +111,7 @@ class C05(InterpProp):
             send = d.chance(0.25, "send", k)
             flows.append({"mentions": mentions, "priority": levels[0], "levels": levels, "loop": d.choice(LOOPS, "loop", k),
                           "action": ("sshared" if shared else "s%d" % k) if send else ("shared" if shared else "a%d" % k), "send": send, "matches": not wrong,
-                          "regex": [i for i in sorted(mentions) if d.chance(0.2, "rx", k, i)], "args_swapped": d.chance(0.4, "swap", k)})
+                          "regex": [i for i in sorted(mentions) if d.chance(0.2, "rx", k, i)], "args_swapped": d.chance(0.4, "swap", k), "or_group": d.chance(0.25, "orgroup", k)})
         return {"m": m, "actual": actual, "flows": flows, "trackers": d.weighted([(0, 5), (1, 3), (2, 2)], "trackers")}
 
     def run_pick(self, sc, program, pick):
@@ -211,6 +215,8 @@ class C05(InterpProp):
                     out.violate("action-start-count", "%d-starts" % n_start, "%s: action %r was started %d times" % (desc, win_action, n_start))
                 if len(expected_proceed) >= 2:
                     out.probe("shared_action_co_winners")
+                if any(flows[k].get("or_group") for k in members) and len(members) >= 2:
+                    out.probe("competitor_waits_in_or_group")
                 if len(set(bool(flows[k].get("send")) for k in members)) == 2:
                     out.probe("raw_event_competes_with_action_start")
                 for k in proceeded:
